@@ -184,7 +184,7 @@ func (t *TicketAttempt) Decode(d *Decoder) error {
 	cLog(Cyan, "Decoding TicketAttempt")
 
 	// a compact integer, not a sequence length
-	val, err := d.DecodeIntegerMax(math.MaxUint8)
+	val, err := d.DecodeInteger()
 	if err != nil {
 		return err
 	}
